@@ -17,20 +17,21 @@ namespace PM
 /-! ### fill_before -/
 
 theorem fillEdgesO_eq_of (d : Dfa) (gen : TypeId → Bool) (after : List TypeId) (toEnd : Bool) (fuel : Nat)
+    (search : Nat → List TypeId → List Nat → Option (List TypeId) × List Nat)
     (hP : ∀ (q : Nat) (types : List TypeId) (seen : List Nat),
-      fillSearchO d gen after toEnd fuel q types seen = fillSearch d gen after toEnd fuel q types seen) :
+      search q types seen = fillSearch d gen after toEnd fuel q types seen) :
     ∀ (edges : List (TypeId × Nat)) (types : List TypeId) (seen : List Nat),
-      fillEdgesO d gen after toEnd fuel edges types seen = fillEdges d gen after toEnd fuel edges types seen
+      fillEdgesO search gen edges types seen = fillEdges d gen after toEnd fuel edges types seen
   | [], types, seen => by simp [fillEdgesO, fillEdges]
   | (t, nxt) :: rest, types, seen => by
     rw [fillEdgesO.eq_2, fillEdges.eq_2, hP]
     by_cases hc : (gen t && !seen.contains nxt) = true
     · rw [if_pos hc, if_pos hc]
       rcases fillSearch d gen after toEnd fuel nxt (types ++ [t]) (nxt :: seen) with ⟨_ | r, s⟩
-      · exact fillEdgesO_eq_of d gen after toEnd fuel hP rest types s
+      · exact fillEdgesO_eq_of d gen after toEnd fuel search hP rest types s
       · rfl
     · rw [if_neg hc, if_neg hc]
-      exact fillEdgesO_eq_of d gen after toEnd fuel hP rest types seen
+      exact fillEdgesO_eq_of d gen after toEnd fuel search hP rest types seen
 
 theorem fillSearchO_eq (d : Dfa) (gen : TypeId → Bool) (after : List TypeId) (toEnd : Bool) :
     ∀ (fuel q : Nat) (types : List TypeId) (seen : List Nat),
@@ -38,7 +39,7 @@ theorem fillSearchO_eq (d : Dfa) (gen : TypeId → Bool) (after : List TypeId) (
   | 0, q, types, seen => by simp [fillSearchO, fillSearch]
   | fuel + 1, q, types, seen => by
     rw [fillSearchO.eq_2, fillSearch.eq_2,
-      fillEdgesO_eq_of d gen after toEnd fuel (fillSearchO_eq d gen after toEnd fuel)]
+      fillEdgesO_eq_of d gen after toEnd fuel _ (fillSearchO_eq d gen after toEnd fuel)]
     rfl
 
 /-- the order-faithful search is the search of PM/Fill.lean -/
